@@ -59,10 +59,9 @@ func c03One(x poly.Sequence, mode int, viaFile bool, emit func(interface{})) {
 		}
 		text := first
 		if viaFile {
-			p := tmpFile(nil)
+			p := stalePath("genbank")
 			genbank.Write(x, p)
 			text, _ = os.ReadFile(p)
-			os.Remove(p)
 		}
 		back := genbank.Parse(text)
 		px, pb := projectGb(x), projectGb(back)
